@@ -88,7 +88,8 @@ def step (st : St) (ws : List String) : St × String × String × String :=
       let obs := if rw == rwo then "same" else "diff"
       let m := obs ++ " | w=" ++ showRows rw ++ " wo=" ++ showRows rwo ++ " " ++
         (if usesIndex st.w q then "seek" else "scan")
-      (st, m, "same", " ".intercalate (triggerIds cfg st.hist q))
+      -- the spec speaks about well-formed histories only (ill-formed shrinks are not failures)
+      (st, m, if WF st.hist then "same" else "-", " ".intercalate (triggerIds cfg st.hist q))
   | _ => (st, "bad-op", "-", "")
 
 def stream : Stream := { σ := St, init := St.init, step := step }
